@@ -182,3 +182,94 @@ def check_intrusive_list(ctx, unit, cls="frg::_list::intrusive_list"):
                     bad.append("a path leaves the source list non-empty (writes %s)" % sorted(s))
             ctx.inst("H.list-splice", "%s::splice" % cls, not bad and len(sets) >= 2, f.loc,
                      "; ".join(sorted(set(bad))) if bad else "%d paths examined" % len(sets), f)
+
+
+# ---- read of a link that was just cleared / use of a value derived through a pointer that has moved ------
+
+def check_read_after_clear(ctx, rule, fns, accessor_names=("h",), fields=None):
+    """A hook field read h(P).f that is dominated (same P, no intervening write of f or redefinition of P)
+    by the write h(P).f = null always yields null: the link it was meant to carry is already gone."""
+    from .rules_tree import Ser, is_assert_stmt
+    for f in fns:
+        ser = Ser(f, sound=True)
+        ser.never = True
+        bad = []
+        n_reads = [0]
+
+        def transfer(n, s, f=f, ser=ser):
+            hw = hook_write(n, accessor_names)
+            if hw and hw[1] is not None:
+                fld, obj = hw[0], ser.expr(hw[1])
+                v = hw[2].strip()
+                s = frozenset(x for x in s if x[1] != fld)
+                if v.get("nullc") or v.kind == "CXXNullPtrLiteralExpr":
+                    s = s | {(obj, fld)}
+                return [s]
+            w = write_of(n)
+            if w and w[0] and len(w[0]) == 1:
+                nm = w[0][0].split(":")[1].split("#")[0]
+                s = frozenset(x for x in s if nm not in x[0])
+                return [s]
+            if n.is_call() and n.callee and n.callee["n"] not in Ser.PURE and n.kind != "CXXConstructExpr":
+                return [frozenset()]
+            if n.kind == "MemberExpr" and n.get("mk") == "Field":
+                base = n.children[0].strip() if n.children else None
+                if base is not None and base.is_call() and base.callee and base.callee["n"] in accessor_names and base.args:
+                    par = f.parent(n)
+                    # a read (not the target of an assignment), outside assertions
+                    is_target = par is not None and par.kind == "BinaryOperator" and par.op == "=" and par.children[0].id == n.id
+                    if not is_target and n.get("mac") not in ("FRG_ASSERT",):
+                        n_reads[0] += 1
+                        key = (ser.expr(base.args[-1]), n.m)
+                        if key in s:
+                            bad.append("h(%s).%s is read at %s right after it was cleared" % (key[0], key[1], n.loc))
+            return [s]
+        flow.run(f, [frozenset()], transfer, None, limit=200000)
+        if n_reads[0]:
+            ctx.inst(rule, f.sig, not bad, f.loc, "; ".join(sorted(set(bad))[:3]) if bad else
+                     "%d link reads, none of a link cleared on the way" % n_reads[0], f)
+
+
+def check_stale_derived(ctx, rule, fns):
+    """A local loaded *through* a cursor (V->..., V.load(), f(.., V->...)) is stale once V is reassigned;
+    it must not be used after that without being recomputed."""
+    for f in fns:
+        inits = RA.local_inits(f)
+        # cursor candidates: pointer-typed locals / fields of this that are assigned somewhere in f
+        assigned = {}
+        for n in f.events():
+            w = write_of(n)
+            if w and w[0] and n.kind == "BinaryOperator":
+                assigned.setdefault(w[0], []).append(n)
+        derived = {}   # local did -> cursor path
+        for did, init in inits.items():
+            for x in init.walk():
+                if x.kind == "MemberExpr" and x.get("arrow"):
+                    p = path(x.children[0]) if x.children else None
+                    if p in assigned and (p[0].startswith("v:") or p[0] == "this") and not p[0].endswith("#%d" % did):
+                        derived[did] = p
+        if not derived:
+            continue
+        bad = []
+        uses = [0]
+
+        def transfer(n, s):
+            if n.kind == "DeclStmt":
+                for d in n.get("decls", []):
+                    if d["d"] in derived:
+                        s = s | {d["d"]}
+            w = write_of(n)
+            if w and w[0] and n.kind == "BinaryOperator":
+                s = frozenset(d for d in s if derived[d] != w[0])
+            if n.kind == "DeclRefExpr" and n.d["d"] in derived:
+                par = f.parent(n)
+                if not (par is not None and par.kind == "DeclStmt"):
+                    uses[0] += 1
+                    if n.d["d"] not in s:
+                        bad.append("%s (loaded through %s) is used at %s after %s moved on" % (
+                            n.n, ".".join(x.split("#")[0] for x in derived[n.d["d"]]), n.loc,
+                            ".".join(x.split("#")[0] for x in derived[n.d["d"]])))
+            return [s]
+        flow.run(f, [frozenset()], transfer, None, limit=200000)
+        ctx.inst(rule, f.sig, not bad, f.loc, "; ".join(sorted(set(bad))[:3]) if bad else
+                 "%d uses of %d cursor-derived locals, all current" % (uses[0], len(derived)), f)
